@@ -46,6 +46,8 @@ type OracleOut struct {
 	Output   int64    `json:"output_bytes"` // bytes written to fd 1/2 during the calls
 	ArgMut   []string `json:"arg_mutated,omitempty"`
 	Hung     int      `json:"hung"` // index (in IDs) of a call that never returned, -1 if none
+	Crash    string   `json:"crash,omitempty"` // filled by the driver: the oracle process died (Go runtime fatal error in library code)
+	CrashAt  int      `json:"crash_at,omitempty"`
 }
 
 // Event mirrors simrt.Event.
